@@ -134,7 +134,10 @@ func (g *Graph) ReachNF(n int) map[int]bool {
 
 // Build realises the node specifications bottom-up. salt makes the bytes of
 // different scenarios differ.
-func Build(nodes []NodeSpec, salt string) (*Graph, error) {
+func Build(nodes []NodeSpec, salt string) (*Graph, error) { return BuildWith(nodes, salt, nil) }
+
+// BuildWith is Build with the bytes of non-manifest nodes given by blobs (when blobs[k] is not nil).
+func BuildWith(nodes []NodeSpec, salt string, blobs [][]byte) (*Graph, error) {
 	n := len(nodes) - 1
 	g := &Graph{N: n, Nodes: nodes, Descs: make([]ocispec.Descriptor, n+1), Blobs: make([][]byte, n+1),
 		ID: map[string]int{}, ByDg: map[string][]int{}}
@@ -179,6 +182,8 @@ func Build(nodes []NodeSpec, salt string) (*Graph, error) {
 			if ns.Alias > 0 {
 				b = g.Blobs[ns.Alias]
 				mt = "application/vnd.verif.alias"
+			} else if blobs != nil && k < len(blobs) && blobs[k] != nil && !ns.Empty {
+				b = blobs[k]
 			} else if !ns.Empty {
 				b = []byte(fmt.Sprintf("blob-%s-%d", salt, k))
 			} else {
